@@ -1,5 +1,5 @@
-import Mp4ff.Lemmas.C15Inv
-/-! static name analysis of a `BitSyn` syntax: which names a serialised trace can contain (C15, picture size) -/
+import Mp4ff.Lemmas.C16Inv
+/-! static name analysis of a `BitSyn` syntax: which names a serialised trace can contain (C16, picture size) -/
 namespace Mp4ff.BitSyn
 open Mp4ff.Bits
 
@@ -11,7 +11,9 @@ def Syn.mentions (x : String) : Syn → Bool
   | .ue nm => nm == x
   | .se nm => nm == x
   | .cond _ body => mentionsL x body
-  | .rep _ body => mentionsL x body
+  | .rep _ _ body => mentionsL x body
+  | .seterr _ => false
+  | .abort _ => false
 def mentionsL (x : String) : List Syn → Bool
   | [] => false
   | s :: r => s.mentions x || mentionsL x r
@@ -25,7 +27,9 @@ def Syn.flagOnly (x : String) : Syn → Bool
   | .ue nm => nm != x
   | .se nm => nm != x
   | .cond _ body => flagOnlyL x body
-  | .rep _ body => flagOnlyL x body
+  | .rep _ _ body => flagOnlyL x body
+  | .seterr _ => true
+  | .abort _ => true
 def flagOnlyL (x : String) : List Syn → Bool
   | [] => true
   | s :: r => s.flagOnly x && flagOnlyL x r
@@ -82,7 +86,7 @@ theorem ops_not_mention (x : String) (f : Nat) : ∀ (L : List Syn) (acc src : T
         · exact hu1 en hen
         · exact hu2 en hen
       · exact ih _ _ _ _ _ _ h2 hm.2
-    | .rep n body :: rest =>
+    | .rep cap n body :: rest =>
       simp only [mentionsL, Syn.mentions, Bool.or_eq_false_iff] at hm
       rcases ops_rep_inv h with ⟨_, h2⟩ | ⟨k, o1, a1, s1, o2, _, h1, h2, _⟩
       · exact ih _ _ _ _ _ _ h2 hm.2
@@ -93,6 +97,12 @@ theorem ops_not_mention (x : String) (f : Nat) : ∀ (L : List Syn) (acc src : T
         intro en hen; simp at hen; rcases hen with hen | hen
         · exact hu1 en hen
         · exact hu2 en hen
+    | .seterr p :: rest =>
+      simp only [mentionsL, Syn.mentions, Bool.false_or] at hm
+      exact ih _ _ _ _ _ _ (ops_seterr_inv h).2 hm
+    | .abort p :: rest =>
+      simp only [mentionsL, Syn.mentions, Bool.false_or] at hm
+      exact ih _ _ _ _ _ _ (ops_abort_inv h).2 hm
 
 theorem ops_flagOnly (x : String) (f : Nat) : ∀ (L : List Syn) (acc src : Trace) (os : List Op) (acc' src' : Trace),
     ops f L acc src = some (os, acc', src') → flagOnlyL x L = true →
@@ -145,7 +155,7 @@ theorem ops_flagOnly (x : String) (f : Nat) : ∀ (L : List Syn) (acc src : Trac
         · exact hu1 en hen
         · exact hu2 en hen
       · exact ih _ _ _ _ _ _ h2 hm.2
-    | .rep n body :: rest =>
+    | .rep cap n body :: rest =>
       simp only [flagOnlyL, Syn.flagOnly, Bool.and_eq_true] at hm
       rcases ops_rep_inv h with ⟨_, h2⟩ | ⟨k, o1, a1, s1, o2, _, h1, h2, _⟩
       · exact ih _ _ _ _ _ _ h2 hm.2
@@ -156,6 +166,12 @@ theorem ops_flagOnly (x : String) (f : Nat) : ∀ (L : List Syn) (acc src : Trac
         intro en hen; simp at hen; rcases hen with hen | hen
         · exact hu1 en hen
         · exact hu2 en hen
+    | .seterr p :: rest =>
+      simp only [flagOnlyL, Syn.flagOnly, Bool.true_and] at hm
+      exact ih _ _ _ _ _ _ (ops_seterr_inv h).2 hm
+    | .abort p :: rest =>
+      simp only [flagOnlyL, Syn.flagOnly, Bool.true_and] at hm
+      exact ih _ _ _ _ _ _ (ops_abort_inv h).2 hm
 
 /-! `Trace.get` -/
 
